@@ -18,7 +18,13 @@ fn fnv16(s: &str) -> (u8, u8) {
 pub fn contracttype(_attr: TokenStream, item: TokenStream) -> TokenStream {
     let input = parse_macro_input!(item as DeriveInput);
     let name = &input.ident;
-    let (t0, t1) = fnv16(&name.to_string());
+    // Like real XDR (ScMap keyed by field names / ScVec led by the variant-name symbol), the type's
+    // own name does not take part: structs are tagged by their field names, enum values by the
+    // variant name.
+    let (t0, t1) = match &input.data {
+        Data::Struct(s) => fnv16(&s.fields.iter().map(|f| f.ident.as_ref().map(|i| i.to_string()).unwrap_or_default()).collect::<Vec<_>>().join(",")),
+        _ => (0xEB, 0x90),
+    };
     let (ser_body, de_body, def_body) = match &input.data {
         Data::Struct(s) => match &s.fields {
             Fields::Named(f) => {
@@ -64,18 +70,19 @@ pub fn contracttype(_attr: TokenStream, item: TokenStream) -> TokenStream {
             } else {
                 let mut ser_arms = vec![];
                 let mut de_arms = vec![];
-                for (k, v) in en.variants.iter().enumerate() {
+                for v in en.variants.iter() {
                     let vi = &v.ident;
-                    let k = k as u8;
+                    let (k0, k1) = fnv16(&vi.to_string());
+                    let k: u16 = ((k0 as u16) << 8) | k1 as u16;
                     match &v.fields {
                         Fields::Unit => {
-                            ser_arms.push(quote! { #name::#vi => { o.push(#k); } });
+                            ser_arms.push(quote! { #name::#vi => { o.push(#k0); o.push(#k1); } });
                             de_arms.push(quote! { if tag == #k { return Some(#name::#vi); } });
                         }
                         Fields::Unnamed(u) => {
                             let n = u.unnamed.len();
                             let binds: Vec<_> = (0..n).map(|i| format_ident!("f{}", i)).collect();
-                            ser_arms.push(quote! { #name::#vi( #(#binds),* ) => { o.push(#k); #( soroban_sdk::Ser::ser(#binds, o); )* } });
+                            ser_arms.push(quote! { #name::#vi( #(#binds),* ) => { o.push(#k0); o.push(#k1); #( soroban_sdk::Ser::ser(#binds, o); )* } });
                             de_arms.push(quote! { if tag == #k { #( let #binds = soroban_sdk::De::de(r)?; )* return Some(#name::#vi( #(#binds),* )); } });
                         }
                         _ => panic!("unsupported enum variant"),
@@ -83,7 +90,7 @@ pub fn contracttype(_attr: TokenStream, item: TokenStream) -> TokenStream {
                 }
                 (
                     quote! { match self { #(#ser_arms),* } },
-                    quote! { let tag = r.byte()?; #(#de_arms)* None },
+                    quote! { let tag: u16 = ((r.byte()? as u16) << 8) | r.byte()? as u16; #(#de_arms)* None },
                     def,
                 )
             }
